@@ -1541,3 +1541,81 @@ Theorem WeightSum_refines : forall h vl vw ls ws d, int_slice h vl ls -> int_sli
   exists fuel, run go_funs fuel "PBConstr.WeightSum" [VStruct [vl; vw; VInt d]] h
     = OReturn (VInt (weight_sum (GoPB ls (ws_opt vw ws) d))) h.
 Proof. intros h vl vw ls ws d Hl Hw. apply run_to_fuel. apply WeightSum_run; assumption. Qed.
+
+(* ---- Eq panics exactly when the two lengths differ *)
+
+Lemma eval_len_int_slice : forall h v ls loc x, int_slice h v ls -> lookup x loc = Some v ->
+  eval (St loc h) (ELen (EVar x)) = EV (VInt (Z.of_nat (length ls))).
+Proof.
+  intros h v ls loc x Hv Hx. cbn [eval locals]. rewrite Hx. cbn [ebind].
+  destruct Hv as [(-> & ->)|(s & -> & Hok & Hrd)]; [reflexivity|].
+  rewrite <- Hrd, (length_sl_read h s Hok). reflexivity.
+Qed.
+
+(* the first four statements of Eq: two fresh arrays holding copies of the arguments *)
+Lemma Eq_prefix : forall h vl vw ls ws n rest o,
+  int_slice h vl ls -> int_slice h vw ws ->
+  runs go_funs rest
+    (St [("lits", vl); ("weights", vw); ("n", VInt n);
+         ("lits2", eq_l2 h (length ls)); ("weights2", eq_w2 h (length ws))] ((h ++ [ls]) ++ [ws])) o ->
+  runs go_funs
+    (SSeq (SMake "lits2" (ELen (EVar "lits")))
+    (SSeq (SMake "weights2" (ELen (EVar "weights")))
+    (SSeq (SCopy (EVar "lits2") (EVar "lits"))
+    (SSeq (SCopy (EVar "weights2") (EVar "weights")) rest))))
+    (St [("lits", vl); ("weights", vw); ("n", VInt n)] h) o.
+Proof.
+  intros h vl vw ls ws n rest o Hl Hw Hrest.
+  eapply runs_seq.
+  { apply runs_make with (k := Z.of_nat (length ls)); [|lia].
+    apply (eval_len_int_slice h vl ls); [exact Hl|reflexivity]. }
+  cbn [locals hp upd String.eqb Ascii.eqb Bool.eqb andb]. rewrite Nat2Z.id.
+  eapply runs_seq.
+  { apply runs_make with (k := Z.of_nat (length ws)); [|lia].
+    apply (eval_len_int_slice _ vw ws); [apply int_slice_alloc; exact Hw|reflexivity]. }
+  cbn [locals hp upd String.eqb Ascii.eqb Bool.eqb andb]. rewrite Nat2Z.id, length_alloc.
+  eapply runs_seq with (st' := St [("lits", vl); ("weights", vw); ("n", VInt n);
+         ("lits2", eq_l2 h (length ls)); ("weights2", eq_w2 h (length ws))]
+         ((h ++ [ls]) ++ [repeat 0 (length ws)])).
+  { apply (runs_exec go_funs 1); [|discriminate].
+    unfold eq_l2, eq_w2. destruct Hl as [(-> & ->)|(sl & -> & Hokl & Hrdl)]; gocbn.
+    - cbn [length firstn repeat]. rewrite heap_write_nil. reflexivity.
+    - rewrite (eq_heap_copy1 h sl ls _ Hokl Hrdl). reflexivity. }
+  eapply runs_seq with (st' := St [("lits", vl); ("weights", vw); ("n", VInt n);
+         ("lits2", eq_l2 h (length ls)); ("weights2", eq_w2 h (length ws))] ((h ++ [ls]) ++ [ws])).
+  { apply (runs_exec go_funs 1); [|discriminate].
+    unfold eq_l2, eq_w2. destruct Hw as [(-> & ->)|(sw & -> & Hokw & Hrdw)]; gocbn.
+    - cbn [length firstn repeat]. rewrite heap_write_nil. reflexivity.
+    - rewrite (eq_heap_copy2 h sw ls ws Hokw Hrdw). reflexivity. }
+  exact Hrest.
+Qed.
+
+Lemma Eq_panic_run : forall h vl vw ls ws n,
+  int_slice h vl ls -> int_slice h vw ws -> disjoint_vals vl vw -> length ls <> length ws ->
+  run_to go_funs "Eq" [vl; vw; VInt n] h OPanic.
+Proof.
+  intros h vl vw ls ws n Hl Hw Hdis Hlen.
+  eapply run_to_intro; [reflexivity|reflexivity|]. rewrite src_Eq_shape. cbn [f_body].
+  apply (Eq_prefix h vl vw ls ws n _ _ Hl Hw).
+  set (h4 := (h ++ [ls]) ++ [ws]).
+  assert (Hh4 : length h4 = S (S (length h))) by (unfold h4; rewrite !length_alloc; reflexivity).
+  destruct ws as [|w ws'].
+  - (* no weights, some lits: GtEq returns, LtEq panics *)
+    eapply runs_seq.
+    { eapply runs_call_run; [reflexivity|]. cbn [hp]. apply GtEq_empty_run. reflexivity. }
+    apply runs_seq_abrupt; [|exact I].
+    eapply runs_call_run_panic; [reflexivity|]. cbn [hp].
+    apply (LtEq_panic_run h4 vl vw ls [] n); try assumption;
+      unfold h4; apply int_slice_alloc, int_slice_alloc; assumption.
+  - (* some weights: GtEq on the copies panics *)
+    apply runs_seq_abrupt; [|exact I].
+    eapply runs_call_run_panic; [reflexivity|]. cbn [hp].
+    apply (GtEq_panic_run h4 _ _ ls (w :: ws') n); try assumption; try discriminate.
+    + apply int_slice_fresh; [apply arr_of_alloc2_fst|lia].
+    + apply int_slice_fresh; [apply arr_of_alloc2_snd|lia].
+Qed.
+
+Theorem Eq_panics : forall h vl vw ls ws n,
+  int_slice h vl ls -> int_slice h vw ws -> disjoint_vals vl vw -> length ls <> length ws ->
+  exists fuel, run go_funs fuel "Eq" [vl; vw; VInt n] h = OPanic.
+Proof. intros. apply run_to_fuel. eapply Eq_panic_run; eassumption. Qed.
